@@ -207,7 +207,7 @@ def from_notes(sid):
     prop = 'C' + re.match(r'c(\d+)', sid).group(1)
     return dict(prop=prop, site=head_change or 'see agent_notes.md', change=pick(r'change|the bug|idea') or 'see agent_notes.md',
                 needs=pick(r'manifest|trigger|needed|needs') or 'see agent_notes.md',
-                origin_extra='fourth round: the prompt carried the full property record and a FOCUS file taken from the property\'s own anchors')
+                origin_extra=('fifth' if sid[-1] in 'pqrs' else 'fourth') + ' round: the prompt carried the full property record and a FOCUS file taken from the property\'s own anchors')
 
 
 def main():
@@ -218,6 +218,12 @@ def main():
             m = re.match(r'=== ([Cc]\d+(?:-\d+|[a-z])?)\s+(.*)', line.strip())
             if m:
                 conf[m.group(1).lower()] = m.group(2)
+    p = os.path.join(ROOT, 'reconfirmations-a0b4ed4.txt')
+    if os.path.exists(p):
+        for line in open(p):
+            m = re.match(r'(c\d+(?:-\d+|[a-z])?) (RECONFIRMED .*)', line.strip())
+            if m and m.group(1) not in conf:
+                conf[m.group(1)] = m.group(2) + ' (a0b4ed4)'
     results = {}
     p = os.path.join(ROOT, 'results.txt')
     if os.path.exists(p):
